@@ -137,12 +137,14 @@ Proof.
     eapply steps_cons; [eapply exec_sound; exact E | apply IH; exact H].
 Qed.
 
-Lemma replay_ok_replay P ls : forall s s', replay_ok P ls s = Some s' -> replay P (labels_of ls) s = Some s'.
+Lemma replay_ok_replay P ls : forall s d s', has_inval ls = false ->
+  replay_ok P ls s d = Some s' -> replay P (labels_of ls) s = Some s'.
 Proof.
-  induction ls as [|[l|d k] ls IH]; cbn [replay replay_ok labels_of]; intros s s' H; [exact H| |].
+  induction ls as [|[l|dd k|cs] ls IH]; cbn [replay replay_ok labels_of has_inval]; intros s d s' Hi H;
+    [exact H| | |discriminate].
   - destruct (exec P l s) as [s1|]; [|discriminate].
-    destruct (nexp s1 <=? ndone s1)%nat; [apply IH; exact H | discriminate].
-  - destruct (same_set d (dirty s) && same_set k (locked s)); [apply IH; exact H | discriminate].
+    destruct (nexp s1 <=? ndone s1)%nat; [eapply IH; eassumption | discriminate].
+  - destruct (same_set dd (dirty s) && same_set k (locked s)); [eapply IH; eassumption | discriminate].
 Qed.
 
 Lemma run_steps P strat fuel : forall s, steps P s (run P strat fuel s).
